@@ -28,19 +28,20 @@ pub(super) fn parse_array<'a>(src: &mut &'a [u8]) -> io::Result<Array<'a>> {
 
 fn maybe_consume_delimiter(src: &mut &[u8]) -> io::Result<()> {
     const DELIMITER: u8 = b',';
+    const FIELD_TERMINATOR: u8 = b'\t';
 
-    if let Some((b, rest)) = src.split_first() {
-        if *b == DELIMITER {
+    match src.split_first() {
+        Some((&DELIMITER, rest)) => {
             *src = rest;
-        } else {
-            return Err(io::Error::new(
-                io::ErrorKind::InvalidData,
-                "invalid delimiter",
-            ));
+            Ok(())
         }
+        // An empty array (subtype only) is followed by the next field or the end of the record.
+        Some((&FIELD_TERMINATOR, _)) | None => Ok(()),
+        Some(_) => Err(io::Error::new(
+            io::ErrorKind::InvalidData,
+            "invalid delimiter",
+        )),
     }
-
-    Ok(())
 }
 
 #[cfg(test)]
